@@ -42,6 +42,7 @@ def drive(draw, h, cfg):
     names = list(h.prog_rel['funcs'])
     univ = cfg['universe']
     h.c14_nt = 0
+    h.nt_keys = []
     shape = draw(st.sampled_from(['none', 'cache', 'cache+ext', 'cache+ext', 'cache+ext']))
     for _ in range(draw(st.integers(0, 2))):
         step(h, histprop.draw_ext(draw, h, univ, bias=False))
@@ -79,6 +80,7 @@ def drive(draw, h, cfg):
             call = lf.get('call')
             if lf['fired'][1].startswith('gzip') or _earlier_effect_in_same_call(h, lf):
                 h.c14_nt += 1
+                h.nt_keys.append(['fault', len(h.steps), k, catch])
                 h.stats['c14_fault_after_partial_effect'] += 1
             if call == '<top>':
                 h.stats['c14_fault_outside_any_call'] += 1
